@@ -12,7 +12,10 @@ RULE = ('one case = one operation (pileup, bedgraph pileup, mask, merge with dis
         'intervals on contigs of size 1..4 (quick) / 1..6 (thorough) with every merge distance 0..size; binary operations: all '
         'pairs of such sets for size <=2 (quick) / <=3 (thorough: count_overlap and intersect all pairs, the others 15%), sampled '
         'beyond (sizes up to 60, up to 14 intervals, empty intervals, empty sets, internally disjoint sets); strands +/- for '
-        'extend_to_size; non-trivial = two intervals of the input share an endpoint, nest or overlap, or an interval touches '
+        'extend_to_size; deep inputs: interval counts just above 2^15 and 2^16 (not multiples of them; thorough also 3*2^15+5 and '
+        '2^17+1) on a contig of size <= 64 for pileup / mask / merge / count_overlap, handed to Coq as (multiplicity, start, stop) '
+        'rows; sessions: the same Interval objects passed to 2-4 consecutive jaccard / forbes calls with different contig '
+        'sizes, genomes and partner sets (each call checked against the per-base value of its own arguments); non-trivial = two intervals of the input share an endpoint, nest or overlap, or an interval touches '
         'position 0 or the contig end')
 EXHAUSTIVE = {'quick': False, 'thorough': False}
 TIE = 'translator+correspondence'
@@ -28,6 +31,9 @@ ASSUMPTIONS = ['npstructures RunLength2dArray.from_intervals/.sum(axis=0), RunLe
                'union / an empty marginal) the per-base value is undefined and the Spec asks for what NumPy division gives: nan for 0/0',
                'rows of A without bases (start = stop) in unique_intersect are outside the property: the model follows the '
                'library (kept iff bases p-1 and p are covered) and the Spec compares only the rows with bases',
+               'deep inputs (> 2^15 intervals) are evaluated in Coq through the weighted functions of Model/C08.v, which theorem '
+               'C08_weighted_is_model proves equal to the models on the expanded multiset (expanding and insertion-sorting 10^5 '
+               'events inside Coq is infeasible)',
                'pairs of interval sets are enumerated exhaustively only for contigs of size <= 3 (<= 2 in the quick tier); the '
                'theorems cover all sizes']
 PARTIAL = ['C08_clip_inside_partial / C08_sort_lex_partial / C08_similarity_stream_pinned_refuted describe the code before the '
@@ -38,7 +44,7 @@ PER_FILE = 64
 OPCODE = {'pileup': 1, 'pileup_bg': 2, 'mask': 3, 'merge': 4, 'sort_key': 5, 'sort_lex': 6, 'sort_geom': 7,
           'count_overlap': 8, 'intersect': 9, 'unique_intersect': 10, 'jaccard': 11, 'forbes': 12, 'clip': 13, 'extend': 14,
           'jaccard_geom': 15, 'pileup_geom': 16, 'mask_geom': 17, 'merge_geom': 18,
-          'jaccard_multi': 19, 'forbes_multi': 20}
+          'jaccard_multi': 19, 'forbes_multi': 20, 'pileup_big': 21, 'mask_big': 22, 'merge_big': 23, 'count_overlap_big': 24}
 GNAMES = ['chrA', 'chrB', 'chrC', 'chrD', 'chrE']
 NAMES = ['chr1', 'chr10', 'chr2', 'chrX', 'chr2_alt']
 
@@ -192,6 +198,62 @@ def _clip_extend(cases, rng, n_cases):
         cases.append(_case('extend', 'geom', size, b6, d=frag, **_genome(rng, size)))
 
 
+def _weighted(rng, size, total, k):
+    """k distinct non-empty intervals on the contig with multiplicities >= 1 summing to `total`: rows (mult, start, stop)."""
+    base = _ivs(size)
+    ivs = rng.sample(base, max(1, min(k, len(base), total)))
+    rest = total - len(ivs)
+    cuts = sorted(rng.randint(0, rest) for _ in range(len(ivs) - 1))
+    parts = [b - a for a, b in zip([0] + cuts, cuts + [rest])]
+    return [(1 + p, s, e) for p, (s, e) in zip(parts, ivs)]
+
+
+def _big_cases(cases, rng, tier):
+    """Interval counts just above the block sizes 2^15 and 2^16 (not multiples of them) on a tiny contig; the rows are
+    handed to Coq with multiplicities.  The library gets the expanded rows in a seeded random order (sorted for merge)."""
+    totals = [(1 << 15) + 1, (1 << 15) + 7, 40000, (1 << 16) + 1, (1 << 16) + 3]
+    if tier != 'quick':
+        totals += [(1 << 15) * 3 + 5, (1 << 17) + 1]
+    for n in totals:
+        size = rng.choice([5, 8, 13, 24, 40, 64])
+        W = _weighted(rng, size, n, rng.choice([6, 12, 25]))
+        order_seed = rng.randint(0, 10 ** 9)
+        cases.append(dict(op='pileup_big', route='arith', size=size, d=0, a=[list(x) for x in W], b=[], order_seed=order_seed))
+        cases.append(dict(op='mask_big', route='arith', size=size, d=0, a=[list(x) for x in W], b=[], order_seed=order_seed))
+        Ws = sorted(W, key=lambda t: t[1])
+        cases.append(dict(op='merge_big', route='arith', size=size, d=rng.choice([0, 1, 2]), a=[list(x) for x in Ws], b=[], order_seed=order_seed))
+        WB = _weighted(rng, size, rng.choice([3, 50, n // 2 + 1]), rng.choice([3, 6]))
+        cases.append(dict(op='count_overlap_big', route='arith', size=size, d=0, a=[list(x) for x in W], b=[list(x) for x in WB],
+                          order_seed=order_seed))
+
+
+def _session_cases(cases, rng, n_sessions):
+    """Sessions: the SAME Interval objects are passed to several consecutive similarity calls with different contig sizes,
+    genomes and partner sets; case j of a session is call j (observed after calls 0..j-1 in the same process).  A result
+    may depend only on the arguments of its own call."""
+    for i in range(n_sessions):
+        nsteps = rng.randint(2, 4)
+        multi = i % 3 == 2
+        smin = rng.randint(1, 5)
+        if multi:
+            pool = [sorted((0, s, e) for s, e in _rand_set(rng, smin, rng.randint(0, 2))) for _ in range(3)]
+        else:
+            pool = [sorted((0, s, e) for s, e in _rand_set(rng, smin, rng.randint(0, 3))) for _ in range(3)]
+        steps = []
+        ia, ib = 0, 1
+        for j in range(nsteps):
+            if j and rng.random() < 0.35:            # another partner set, the first object stays
+                ib = rng.choice([1, 2])
+            size = smin + rng.choice([0, 1, 2, 5])
+            sizes = [size] + ([rng.randint(1, 4) for _ in range(rng.randint(0, 2))] if multi else [])
+            op = rng.choice(['jaccard', 'forbes'])
+            steps.append(dict(op=op + ('_multi' if multi else ''), sizes=sizes, ia=ia, ib=ib))
+        for j, st in enumerate(steps):
+            cases.append(dict(op=st['op'], route='session', size=max(st['sizes']) if multi else st['sizes'][0], d=0,
+                              a=[list(x) for x in pool[st['ia']]], b=[list(x) for x in pool[st['ib']]],
+                              sizes=st['sizes'], rank=0, session=dict(pool=[[list(x) for x in p] for p in pool], steps=steps), index=j))
+
+
 def generate(tier, seed):
     rng = random.Random(seed * 104729 + 8)
     cases = []
@@ -273,6 +335,8 @@ def generate(tier, seed):
         A = [rng.choice(basee) for _ in range(rng.randint(1, 3))]
         B = [rng.choice(_ivs(S)) for _ in range(rng.randint(0, 3))]
         _binary(cases, rng, S, A, B, ops=('unique_intersect',))
+    _session_cases(cases, rng, 150 if quick else 1000)
+    _big_cases(cases, rng, tier)
     _sort_cases(cases, rng, 300 if quick else 2000, tier)
     _clip_extend(cases, rng, 200 if quick else 1200)
     return cases
@@ -339,6 +403,40 @@ def observe(case):
 
     try:
         a, b = case['a'], case['b']
+        if route == 'session':
+            ses = case['session']
+
+            def mks(rows):
+                if not rows:
+                    return Interval([GNAMES[0]], np.array([0]), np.array([1]))[:0]
+                return Interval([GNAMES[t] for t, s, e in rows], np.array([s for t, s, e in rows], dtype=int),
+                                np.array([e for t, s, e in rows], dtype=int))
+            objs = [mks(p) for p in ses['pool']]          # built once: the same objects go into every call
+            f = None
+            for st in ses['steps'][:case['index'] + 1]:
+                g = {GNAMES[i]: z for i, z in enumerate(st['sizes'])}
+                f = float(getattr(ar, st['op'].split('_')[0])(g, objs[st['ia']], objs[st['ib']]))
+            if math.isnan(f):
+                return dict(err=0, kind=1, num=0, den=1)
+            if math.isinf(f):
+                return dict(err=0, kind=2, num=0, den=1)
+            n, m = f.as_integer_ratio()
+            return dict(err=0, kind=0, num=n, den=m)
+        if op.endswith('_big'):
+            def expand(rows, shuffle=True):
+                st = np.repeat(np.array([s for m, s, e in rows], dtype=int), [m for m, s, e in rows])
+                en = np.repeat(np.array([e for m, s, e in rows], dtype=int), [m for m, s, e in rows])
+                if shuffle:
+                    perm = np.random.RandomState(case['order_seed'] % (2 ** 31)).permutation(len(st))
+                    st, en = st[perm], en[perm]
+                return Interval(['chr1'] * len(st), st, en)
+            if op == 'pileup_big':
+                return dict(err=0, dense=[int(x) for x in ar.get_pileup(expand(a), size).to_array()])
+            if op == 'mask_big':
+                return dict(err=0, dense=[int(bool(x)) for x in ar.get_boolean_mask(expand(a), size).to_array()])
+            if op == 'merge_big':
+                return dict(err=0, ivs=ivs_out(ar.merge_intervals(expand(a, shuffle=False), d)))
+            return dict(err=0, num=int(ar.count_overlap(expand(a), expand(b))))
         if op == 'pileup' and route == 'after_merge':
             iv = mk(a)
             ar.merge_intervals(iv, d)
